@@ -152,11 +152,13 @@ func (w *WorkerCtx) LogAttrsAt(ctx context.Context, pc uintptr, level slog.Level
 // - Panic catching.
 // - Flow control helpers.
 func (m *Manager) Go(name string, fn func(w *WorkerCtx) error) {
+	// Count the worker before its goroutine is started: a WaitForWorkers that
+	// follows right after must not miss it.
+	m.workerStart()
 	go m.manageWorker(name, fn)
 }
 
 func (m *Manager) manageWorker(name string, fn func(w *WorkerCtx) error) {
-	m.workerStart()
 	defer m.workerDone()
 
 	w := &WorkerCtx{
